@@ -1,5 +1,46 @@
-/- Line-protocol driver for the C08 model (stub until the model exists). -/
-import ForML.Model.Sexp
-open ForML
+/- Line-protocol driver for the C08 model (ForML.Model.DslEq).
 
-def main : IO Unit := driverLoop (fun _ => .atom "no-model")
+   (inthash n)          → pyIntHash n
+   (eqf A B)            → (eq <true|false|raises> <hashes equal> <A survives pickling>)   features
+   (eqs A B)            → …                                                              sources
+   (eqk A B)            → …                                                              kinds
+   every line may be wrapped as (let ((x sexp) …) body), `$x` atoms are substituted.
+   Hashes are evaluated in the free environment (`freeEnv`): equal only where congruence and `pyIntHash` force it. -/
+import ForML.Model.Sexp
+import ForML.Model.Dsl
+import ForML.Model.DslEq
+open ForML ForML.Dsl
+
+def eqResSexp : EqRes → Sexp
+  | none => .atom "raises"
+  | some b => Sexp.ofBool b
+
+def answer (r : EqRes) (h p : Bool) : Sexp := .list [.atom "eq", eqResSexp r, Sexp.ofBool h, Sexp.ofBool p]
+
+def stepC08 (line : Sexp) : Sexp :=
+  match expandLet line with
+  | none => .atom "bad-op"
+  | some x =>
+    match x with
+    | .list [.atom "inthash", n] =>
+      match n.int? with
+      | some n => Sexp.ofInt (pyIntHash n)
+      | none => .atom "bad-op"
+    | .list [.atom "eqf", a, b] =>
+      match Feature.ofSexp a, Feature.ofSexp b with
+      | some a, some b =>
+        answer (Feature.implEq freeEnv a b) (decide (a.H freeEnv = b.H freeEnv)) (decide (a.pickle = some a))
+      | _, _ => .atom "bad-op"
+    | .list [.atom "eqs", a, b] =>
+      match Source.ofSexp a, Source.ofSexp b with
+      | some a, some b =>
+        answer (Source.implEq freeEnv a b) (decide (a.H freeEnv = b.H freeEnv)) (decide (a.pickle = some a))
+      | _, _ => .atom "bad-op"
+    | .list [.atom "eqk", a, b] =>
+      match Kind.ofSexp a, Kind.ofSexp b with
+      | some a, some b =>
+        answer (some (Kind.implEq a b)) (decide (a.H freeEnv = b.H freeEnv)) (decide (a.pickle = some a))
+      | _, _ => .atom "bad-op"
+    | _ => .atom "bad-op"
+
+def main : IO Unit := driverLoop stepC08
